@@ -65,7 +65,10 @@ def parse_trace(path, regions_wanted=None):
             d["n"] = int(d["n"]); d["c"] = int(d["c"]); d["pe"] = int(d["pe"]); d["t"] = int(d["t"])
             decisions.append(d)
             # Everything about the decision except which alternative was taken.
-            dl.append(f"{d['k']} {d['n']} {d['pe']} {d['fp']} {d['en']}")
+            # The state fingerprint is a statistic only: it is NOT part of the replay-divergence
+            # check (under heavy machine load it was once seen to differ between two runs of the
+            # same schedule while the enabled sets and choices were identical).
+            dl.append(f"{d['k']} {d['n']} {d['pe']} {d['en']}")
         elif tag == "E":
             parts = line.split(" ")
             if keep is not None and parts[1] not in keep:
